@@ -1,6 +1,7 @@
 import WtfModel.Props.C07b
 import WtfModel.Model.Modelled
 import WtfModel.Proofs.GoSort
+import WtfModel.Proofs.GoSortLex
 
 /-!
   C07, continued — the premise `SortOK` (the fuzzy library's final `sort.Stable` yields a score-sorted permutation) is
@@ -71,6 +72,36 @@ theorem complete_sorted (T : Tuning S) (hf : FoldOK T.ri) (hs : T.fuzzySort = Go
       Occurs T.ri.eqFold (runes (T.normQ q)) (runes (fuzzyTarget c))) :
     ∃ r, search T db q { o with useFuzzy := true } = .ok r ∧ r ≠ [] :=
   complete T hf (sortOK_of_goStable T hs) db q o h0 hq hoff hd
+
+/-- **The order of the fallback's answer is fixed by a rule**: best library score first, and commands with EQUAL library
+    score in reverse database order (the later command first).  That is what Go's `sort.Stable` does with the library's
+    non-strict `Less` on matches that arrive in database order (`GoSort.fuzzyStable_lex`); the answer is an in-order
+    sub-list of that (the eligible, above-threshold matches, cut at the limit). -/
+theorem fallback_tie_order (T : Tuning S) (hs : T.fuzzySort = GoSort.fuzzyStable) (db : Db) (q : Bytes) (o : Opts S)
+    (r : List (Nat × S))
+    (hoff : search T db q { o with useFuzzy := false } = .ok [])
+    (hon : search T db q { o with useFuzzy := true } = .ok r) :
+    ∃ ms : List (Nat × Int), r = ms.map (fun m => (m.1, normalizeFuzzy m.2)) ∧
+      ms.Pairwise (fun a b => a.2 > b.2 ∨ (a.2 = b.2 ∧ a.1 > b.1)) := by
+  rw [fallback_only_when_nothing T db q o hoff] at hon
+  obtain ⟨ms, hfind, hr, _⟩ := fuzzySearch_entries T db (T.normQ q) { o with useFuzzy := true } (effLimit o) hon
+  obtain ⟨sub, hsub, _, hcol⟩ :=
+    fuzzyCollect_sublist T db { o with useFuzzy := true } (effLimit o * fuzzyMult) (T.fuzzySort ms) []
+  refine ⟨sub.take (effLimit o), ?_, ?_⟩
+  · rw [hr, hcol]; simp [List.map_take]
+  · rw [hs] at hsub
+    exact ((GoSort.fuzzyStable_lex ms (Wtf.Search.findNoSort_spec _ _ _ _ hfind).1).sublist hsub).sublist (List.take_sublist _ _)
+
+omit [ScoreOps S] in
+/-- the library's sort in closed form, as a statement of its own: on matches in index order, the unique permutation
+    ordered by score (best first) and, within a score, by index (highest first) — whatever the block size or merge
+    strategy of the toolchain's `sort.Stable` -/
+theorem fuzzy_sort_closed_form (ms : List (Nat × Int)) (h : (ms.map (·.1)).Pairwise (· < ·)) :
+    (GoSort.fuzzyStable ms).Perm ms ∧
+    (GoSort.fuzzyStable ms).Pairwise (fun a b => a.2 > b.2 ∨ (a.2 = b.2 ∧ a.1 > b.1)) ∧
+    ∀ l : List (Nat × Int), l.Perm ms → l.Pairwise (fun a b => a.2 > b.2 ∨ (a.2 = b.2 ∧ a.1 > b.1)) →
+      l = GoSort.fuzzyStable ms :=
+  ⟨GoSort.fuzzyStable_perm ms, GoSort.fuzzyStable_lex ms h, GoSort.fuzzyStable_unique ms h⟩
 
 /-! ### non-vacuity -/
 section examples
